@@ -1157,6 +1157,8 @@ package raft
 //@   requires wf: forall j int :: 0 <= j && j < len(reqs) ==> reqs[j] != nil && reqs[j].log != nil
 //@   localonly
 //@   loop 2 invariant sent_so_far: len(sendLogs) == count(j, #i, sendable(reqs[j].log.Type))
+//@   loop 2 invariant stamp: #i > 0 ==> lastBatchIndex == reqs[#i - 1].log.Index && lastBatchTerm == reqs[#i - 1].log.Term
+//@   ensures  stamp_follows_batch: batchingEnabled && len(reqs) > 0 ==> lastIndex == reqs[len(reqs) - 1].log.Index && lastTerm == reqs[len(reqs) - 1].log.Term
 //@   loop 3 invariant position: i == count(j, #i, sendable(reqs[j].log.Type))
 //@   at call (*deferError).respond#1 assert current_request: req == reqs[#i]
 //@   at call (*deferError).respond#1 assert position_of_current_request: prev(i) == count(j, #i, sendable(reqs[j].log.Type))
@@ -1170,3 +1172,70 @@ package raft
 //@   requires wf: req != nil
 //@   localonly
 //@   at call (*deferError).respond#1 assert response_set_before_answer: req.future.response == resp && arg1 == nil
+
+// ---------------------------------------------------------------------------
+// Replication routines, leader side (C05: a follower's match index is reported to quorum tracking only
+// from a successful response and is the last index that response covers; C03/C01: a response carrying a
+// newer term stops the routine and asks the leader to step down before anything else is done with it).
+
+//@ func updateLastAppended
+//@   requires nonnil: s != nil && req != nil && s.commitment != nil
+//@   localonly
+//@   at call (*commitment).match#1 assert reports_last_entry_sent: len(req.Entries) > 0 && arg2 == req.Entries[len(req.Entries) - 1].Index && arg1 == s.peer.ID
+//@   at call (*followerReplication).notifyAll#1 assert next_index_follows_match: len(req.Entries) > 0 && req.Entries[len(req.Entries) - 1].Index < MaxUint64 ==> s.nextIndex == req.Entries[len(req.Entries) - 1].Index + 1
+
+//@ func (r *Raft) replicateTo
+//@   requires nonnil: r != nil && s != nil && r.trans != nil && r.logs != nil && r.logger != nil && r.snapshots != nil && s.commitment != nil
+//@   localonly
+//@   at call updateLastAppended#1 assert match_only_from_successful_response: resp.Success && resp.Term <= req.Term
+//@   at call (*Raft).handleStaleTerm#1 assert newer_term_stops_replication: resp.Term > req.Term
+
+//@ func (r *Raft) sendLatestSnapshot
+//@   requires nonnil: r != nil && s != nil && r.trans != nil && r.logger != nil && r.snapshots != nil && s.commitment != nil
+//@   localonly
+//@   at call (*commitment).match#1 assert match_only_from_successful_install: resp.Success && resp.Term <= req.Term && arg2 == meta.Index && arg1 == peer.ID
+//@   at call Transport.InstallSnapshot#1 assert request_describes_the_snapshot_sent: arg2.LastLogIndex == meta.Index && arg2.LastLogTerm == meta.Term && arg2.Term == s.currentTerm && arg2.ConfigurationIndex == meta.ConfigurationIndex && arg0 == peer.ID
+//@   at call (*Raft).handleStaleTerm#1 assert newer_term_stops_replication: resp.Term > req.Term
+
+//@ func (r *Raft) pipelineDecode
+//@   requires nonnil: r != nil && s != nil && s.commitment != nil
+//@   localonly
+//@   at call updateLastAppended#1 assert match_only_from_successful_response: resp.Success && resp.Term <= req.Term && arg1 == req
+//@   at call (*Raft).handleStaleTerm#1 assert newer_term_stops_replication: resp.Term > req.Term
+
+// ---------------------------------------------------------------------------
+// FSM goroutine: what a snapshot is stamped with (C11), and how the stamp is maintained (C02/C11):
+// lastIndex/lastTerm are the captured locals of runFSM shared by its closures.
+
+// the snapshot closure: the request is stamped with the index and term of the last entry the FSM
+// goroutine handled, and is always answered
+//@ func (r *Raft) runFSM$4
+//@   requires nonnil: req != nil && r != nil && r.fsm != nil
+//@   localonly
+//@   ensures  answered: answered(req.deferError)
+//@   at call (*deferError).respond#1 assert nothing_to_snapshot: arg1 == ErrNothingNewToSnapshot && lastIndex == 0
+//@   at call (*deferError).respond#2 assert stamped_with_last_handled_entry: req.index == lastIndex && req.term == lastTerm && lastIndex != 0
+
+// the user's state machine is assumed not to write raft's memory (in particular not the entry it is handed)
+//@ interface FSM.Apply(log)
+//@   modifies nothing
+//@ interface FSM.Snapshot()
+//@   modifies nothing
+//@ interface ConfigurationStore.StoreConfiguration(index, configuration)
+//@   modifies nothing
+//@ interface BatchingFSM.ApplyBatch(logs)
+//@   modifies nothing
+
+// the single-entry closure moves the stamp to the entry it applied
+//@ func (r *Raft) runFSM$1
+//@   requires nonnil: req != nil && req.log != nil && r != nil && r.fsm != nil
+//@   localonly
+//@   ensures  stamp_follows_applied_entry: req.log.Type == LogCommand ==> lastIndex == req.log.Index && lastTerm == req.log.Term
+//@   ensures  stamp_follows_entries_not_sent_to_the_fsm: req.log.Type != LogCommand && req.log.Type != LogConfiguration ==> lastIndex == req.log.Index && lastTerm == req.log.Term
+
+// the restore closure: answered in every case; on success the stamp is the restored snapshot's
+//@ func (r *Raft) runFSM$3
+//@   requires nonnil: req != nil && r != nil && r.snapshots != nil && r.logger != nil && r.fsm != nil
+//@   localonly
+//@   ensures  answered: answered(req.deferError)
+//@   at call (*deferError).respond#3 assert stamp_follows_restored_snapshot: arg1 == nil && lastIndex == meta.Index && lastTerm == meta.Term
